@@ -444,6 +444,17 @@ pub fn tree_case(r: &mut Rng, o: &TreeOpts) -> Case {
         alpha.sort();
         alpha.dedup();
     }
+    // Huffman tables are indexed by symbol value: make sure large values (beyond 2^16, 2^17)
+    // occur, and occur as the *frequent* symbol (index 0 is the most likely one in the skewed shapes)
+    if let Some(ms) = o.max_symbol {
+        if ms >= 150_000 && o.ty.1 >= 32 && !alpha.is_empty() {
+            let big = 131_072 + r.below((ms - 131_072) as u64 + 1) as u128;
+            if !alpha.contains(&big) {
+                let k = if r.chance(2, 3) { 0 } else { r.below(alpha.len() as u64) as usize };
+                alpha[k] = big;
+            }
+        }
+    }
     let shape = r.below(9);
     let v = if n == 0 { vec![] } else { shaped_seq(r, n, &alpha, shape) };
     let distinct = {
